@@ -77,6 +77,28 @@ theorem validateEcPriv_ok (o : Oracle) (p : EcPub) (d : Option Int) (h : (valida
   · simp at h
   · simp at h
 
+/-- **curve identity**: a checked EC key lives on one of the four curve OBJECTS goat registers (`elliptic.P256()`,
+    `P384()`, `P521()`, `secp256k1.Curve()` — compared by identity in validateEcdsaPublicKey), and the name it is
+    validated under and labelled with is that object's registered name.  Every other `elliptic.Curve` value — the generic
+    `elliptic.P256().Params()`, a `*CurveParams` copy with the same `Name`, another curve renamed, a custom
+    implementation — is `GoCurve.other` in the model, whatever name it reports about itself, and is rejected. -/
+theorem ec_curve_is_registered (o : Oracle) (p : EcPub) (h : EcPubChecked o p) :
+    (p.curve = .p256 ∧ p.curve.name = "P-256") ∨ (p.curve = .p384 ∧ p.curve.name = "P-384") ∨
+    (p.curve = .p521 ∧ p.curve.name = "P-521") ∨ (p.curve = .secp256k1 ∧ p.curve.name = "secp256k1") := by
+  obtain ⟨hc, _, _, _⟩ := h
+  cases hcv : p.curve with
+  | p256 => exact Or.inl ⟨rfl, by decide⟩
+  | p384 => exact Or.inr (Or.inl ⟨rfl, by decide⟩)
+  | p521 => exact Or.inr (Or.inr (Or.inl ⟨rfl, by decide⟩))
+  | secp256k1 => exact Or.inr (Or.inr (Or.inr ⟨rfl, by decide⟩))
+  | other => exact absurd hcv hc
+
+/-- a Go ecdsa key object on any curve value other than the four registered objects is never wrapped -/
+theorem foreign_curve_rejected (o : Oracle) (x y : Int) (d : Option Int) :
+    (newPublicKey (.ecdsa ⟨.other, x, y⟩)).run o = .err "curve" ∧
+    (newPrivateKey (.ecdsa ⟨.other, x, y⟩ d)).run o = .err "curve" := by
+  constructor <;> simp [newPublicKey, newPrivateKey, validateEcPriv, validateEcPub]
+
 /-- what `pub.Equal(cert.PublicKey)` established for the first certificate of the chain -/
 def CertChecked (x5c : Option (List Cert)) (pub : GoPub) : Prop :=
   ∀ c0 rest, x5c = some (c0 :: rest) → c0.pub = pub
